@@ -208,6 +208,25 @@ def Term_or(x):
     return x
 
 
+SMALL_SE3 = {'1e-9..1e-6': (1e-9, 1e-6), '1e-6..1e-3': (1e-6, 1e-3)}
+for _ax in ('236',):
+    for _rn, (_lo, _hi) in SMALL_SE3.items():
+        @claim(f'log-se3-small-angle:{_ax}:{_rn}', values=True, split=True)
+        def _(h, ax=_ax, lo=_lo, hi=_hi):
+            """SE(3) logarithm of a small rotation with a translation (the range where 1 - cos(theta) and theta - sin(theta)
+            cancel in floating point; over R the claim is the same identity as log-se3, the native validation run and the
+            replay exercise the float code in this range)"""
+            R, th = rot_axis(h, 'th', AXES[ax], lo, hi)
+            t = h.vec('t', 3, -10, 10)
+            T = hom(h, R, t)
+            L = base.trlog(T)
+            sc = 1 + nsq(t)
+            h.eq('exp(log T) = T', base.trexp(L), T, tol=1e-7, scale=sc)
+            tw = base.trlog(T, twist=True)
+            h.eq('twist form', tw, base.vexa(L), tol=1e-7, scale=sc)
+            h.eq('rotational part = theta u', tw[3:6], h.arr([th * x for x in AXES[ax]]), tol=1e-7)
+
+
 @claim('log-identity-and-translation')
 def _(h):
     t = h.vec('t', 3, -1e6, 1e6)
